@@ -245,6 +245,22 @@ CHECKS = {
                 "stages under per-site permutation is proved for counts/filters (C15, C17) and carried to results by the replay tie.",
         "technique": "Lean 4 proof (multiset round trip by counting) + real-CLI replay correspondence",
     },
+    "C13": {
+        "text": "Machine-checked for every linear model: feasibility and objective are invariant under renaming of variables; with an injective "
+                "renaming feasible points correspond one to one with equal objective (same optimal value, corresponding optima); feasibility "
+                "depends only on the set of constraints (order, multiplicity irrelevant); objectives and rows are invariant under permuting or "
+                "splitting terms. Per instance the check then establishes the premise on the implementation: the models solve_major_model and "
+                "solve_minor_model hand to CBC for the two builds are equal after renaming variables by the RefSeq identity of their variants "
+                "(reference rows by the set of variants at the site; minor objective up to the construction-order tie-breaker <= 1e-3), for "
+                "shipped hg19/hg38 databases and generated opposite-strand databases with RefSeq-level evidence transported to both builds. "
+                "Oracle: the property itself - equal major/minor solutions, scores and added/lost variants in RefSeq terms at stage level, and "
+                "equal full-pipeline results for alignments expressed against each build (reads mirrored through the coordinate maps).",
+        "design_ref": "DESIGN.md section 4 (C13)",
+        "note": "PARTIAL: the equivariance premise (models are renamings) is validated per instance (translation validation), not proved for the "
+                "builders in general; exact score equality of the minor stage holds up to the order-dependent tie-breaker. Evidence transport "
+                "assumes uniform reference depth around insertion anchors (anchors differ by one base between strands).",
+        "technique": "Lean 4 proof (invariance of ILP semantics under renaming/permutation) + per-instance model-isomorphism validation across builds",
+    },
 }
 
 NOT_YET = "check not built yet (work in progress; see DESIGN.md section 9 build order)"
